@@ -49,10 +49,10 @@ def showBytes (bs : List UInt8) : String := if bs.isEmpty then "-" else String.j
 def showChars (cs : List Nat) : String := if cs.isEmpty then "-" else joinWith "," (cs.map hexNat)
 
 def showFault : Fault → String
-  | .oobRead => "FAULT-oob-read" | .overlap => "FAULT-memcpy-overlap" | .hang => "FAULT-hang"
+  | .oobRead => "FAULT-oob-read" | .overlap => "FAULT-memcpy-overlap" | .hang => "FAULT-hang" | .oobWrite => "FAULT-oob-write"
 
 def showErr : Err → String
-  | .eecerr => "EECERR" | .ebuffull => "EBUFFULL"
+  | .eecerr => "EECERR" | .ebuffull => "EBUFFULL" | .eioerr => "EIOERR"
 
 def T := utf8Table
 
@@ -83,6 +83,25 @@ def showWErr : Option (Sum Err Fault) → String
   | none => "ok" | some (.inl e) => showErr e | some (.inr f) => showFault f
 
 def showSink (l : List (List UInt8)) : String := if l.isEmpty then "." else joinWith "/" (l.map showBytes)
+
+/-- handler script: comma separated, a number k > 0 = accept min(k, offered) bytes, `0` = accept nothing, `f` = fail; `-` = empty -/
+def parseScript (s : String) : Option (List Reply) :=
+  if s == "-" then some [] else
+  (s.splitOn ",").mapM fun t =>
+    if t == "f" then some Reply.fail
+    else match t.toNat? with
+      | some 0 => some Reply.zero
+      | some (k + 1) => some (Reply.acc k)
+      | none => none
+
+/-- write-side calls, `/`-separated: `u:<chars>`, `b:<bytes>`, `F` (flush) -/
+def parseWOps (s : String) : Option (List (Sum (Sum (List Nat) (List UInt8)) Unit)) :=
+  if s == "." then some [] else
+  (s.splitOn "/").mapM fun t =>
+    if t == "F" then some (.inr ())
+    else if t.startsWith "u:" then (parseChars (t.drop 2).toString).map fun ws => .inl (.inl ws)
+    else if t.startsWith "b:" then (parseBytes (t.drop 2).toString).map fun bs => .inl (.inr bs)
+    else none
 
 def step (_ : Unit) (line : String) : Unit × String :=
   ((), match words line with
@@ -146,6 +165,42 @@ def step (_ : Unit) (line : String) : Unit × String :=
         let r := writeBchars cfg bs p.1
         (r.1, s!"{showWErr r.2}|{r.1.buf.length}|{r.1.sink.length}" :: p.2)) (({} : OutSt), [])
       s!"{joinWith " " tr.reverse} sink={showSink o.sink} rest={showBytes o.buf}"
+    | _, _ => "bad-op"
+  | ["tiox", capa, flags, script, ops] => match capa.toNat?, parseScript script, parseWOps ops with
+    | some capa, some sc, some ops =>
+      -- write-side calls against a scripted (adversarial) output handler; after every call: return value, outbuf_len,
+      -- the staged bytes and the number of handler calls so far
+      let cfg := mkCfg capa flags
+      let (o, tr) := ops.foldl (fun (p : OutSt × List String) op =>
+        let (o', ret) : OutSt × String := match op with
+          | .inl (.inl ws) => let r := writeUchars cfg (ws.map (· % uchMod)) p.1; (r.1, showWErr r.2)
+          | .inl (.inr bs) => let r := writeBchars cfg bs p.1; (r.1, showWErr r.2)
+          | .inr () => let r := flush p.1; (r.1, match r.2 with | some c => s!"n{c}" | none => "EIOERR")
+        (o', s!"{ret}|{o'.buf.length}|{showBytes o'.buf}|{o'.ncalls}" :: p.2)) (({ script := sc } : OutSt), [])
+      s!"{joinWith " " tr.reverse} sink={showSink o.sink}"
+    | _, _, _ => "bad-op"
+  | ["prt", script, texts] => match parseScript script, parseChunks texts with
+    | some sc, some ts =>
+      -- `print T1; print T2; …` on the console of the standard runtime (sio staging buffer 2048, IGNOREECERR, autoflush):
+      -- each print is the value and then ORS (also after a failed value write), each a hawk_tio_writeuchars; the program exits at the first print that
+      -- reports failure; when the run returns every stream gets a FLUSH whose failure makes the std handler discard what is
+      -- staged (std.c: hawk_sio_drain, by design, the failure is not reported: hawk_rtx_flushallios is void); closing then
+      -- flushes three more times (hawk_sio_fini, hawk_tio_fini, detach_out)
+      let cfg := mkCfg 2048 "i"
+      let rec go (ts : List (List UInt8)) (i : Nat) (o : OutSt) : OutSt × Nat :=
+        match ts with
+        | [] => (o, 0)
+        | t :: rest =>
+          let cs := match convBtoU T true t.length t with | .ok (_, _, cs) => cs | .error _ => []
+          let r1 := writeUchars cfg cs o
+          -- (HAWK_TOLERANT) run.c goes on to write ORS after a failed value write; the print reports the failure
+          let r2 := writeUchars cfg [0x0A] r1.1
+          if r1.2.isSome || r2.2.isSome then (r2.1, 101 + i) else go rest (i + 1) r2.1
+      let (o, ec) := go ts 0 { script := sc }
+      let r := flush o
+      let o : OutSt := match r.2 with | none => { r.1 with buf := [] } | some _ => r.1
+      let o := (flush (flush (flush o).1).1).1
+      s!"ec={ec} calls={o.ncalls} sink={showSink o.sink}"
     | _, _ => "bad-op"
   | _ => "bad-op")
 
